@@ -430,8 +430,13 @@ def normalize(got, want, runstate=None):
             if not _check_match(a, b, runstate):
                 for q in ['"', "'"]:
                     if len(a) >= 2 and a.startswith(q) and a.endswith(q):
-                        if _check_match(a[1:-1], b, runstate):
-                            return a[1:-1]
+                        inner = a[1:-1]
+                        if runstate['NORMALIZE_WHITESPACE'] or runstate['IGNORE_WHITESPACE']:
+                            # whitespace next to the removed quotes is now
+                            # leading / trailing whitespace
+                            inner = inner.strip()
+                        if _check_match(inner, b, runstate):
+                            return inner
             return a
         got = norm_repr(got, want)
         want = norm_repr(want, got)
